@@ -92,7 +92,7 @@ fn gen(seed: u64, tier: Tier) -> Plan {
     let hostile = if rng.chance(1, 4) {
         Some((
             rng.range(1, n as u64 - 1) as usize,
-            rng.pick(&["wrap-two-halves", "wrap-max-plus", "wrap-three", "gt-pays-out", "nft-overspend", "spend-at-window-edge", "spend-at-window-edge"]).to_string(),
+            rng.pick(&["wrap-two-halves", "wrap-max-plus", "wrap-three", "gt-pays-out", "nft-overspend", "spend-at-window-edge", "spend-at-window-edge", "stake-spend-at-window-edge"]).to_string(),
             rng.pick(&["pool", "block"]).to_string(),
         ))
     } else {
@@ -200,7 +200,7 @@ fn hostile_tx(c: &mut Chain, kind: &str) -> Option<Transaction> {
     let tag = c.tag();
     let ts = c.tip_rec().ts + tag;
     match kind {
-        "spend-at-window-edge" => {
+        "spend-at-window-edge" | "stake-spend-at-window-edge" => {
             // an unspent output of block (tip - genesis period): the next block's rebroadcast pass is the one
             // that handles that block (rebroadcasts the output, or collects it as dust), so a user transaction
             // in that block may not spend it as well. Smallest amounts first: dust is collected without an ATR
@@ -217,7 +217,13 @@ fn hostile_tx(c: &mut Chain, kind: &str) -> Option<Transaction> {
             edge.sort_by_key(|s| (s.amount, s.key()));
             let e = edge.first()?.clone();
             let owner = c.keys.iter().find(|k| k.pk == e.pk)?.clone();
-            return Some(make_tx(&owner, &[e.clone()], &[(owner.pk, e.amount)], ts, &tag.to_le_bytes()));
+            let mut t = make_tx(&owner, &[e.clone()], &[(owner.pk, e.amount)], ts, &tag.to_le_bytes());
+            if kind == "stake-spend-at-window-edge" {
+                // the same spend under the staking type (valid with staking off: the requirement is zero)
+                t.transaction_type = TransactionType::BlockStake;
+                t.sign(&owner.sk);
+            }
+            return Some(t);
         }
         "gt-pays-out" => {
             // a golden ticket with a valid solution whose transaction also carries a value output
